@@ -245,6 +245,22 @@ CHECKS['C16'] = dict(
     assumptions=['herumi BLS is trusted'],
 )
 
+CHECKS['C17'] = dict(
+    pkg='c17', level='exploration',
+    technique='model-based (stateful) property testing: rapid-generated sequences of prepare/execute/contribute/commit/abort/clock-advance over three account names on one real instance with harness-simulated peers, checked step by step against an explicit lifecycle model',
+    level_text=('One real instance (process service + receiver handler + wallet store) with five configured peers of which the harness plays four with real BLS polynomials. Sequences of up to 30 '
+                'events over names A, B, C: prepare (2-5 participants, threshold in bound, the instance lowest/middle/highest id), execute (the instance\'s outgoing contributions are answered '
+                'validly), contributions from lower-id participants (single, all, repeated), commit, abort, clock advance of 25/50/75 minutes against a 1 h timeout (verif hook ages the sessions). '
+                'After every step the answer (ok/error) must be what the lifecycle model says - second prepare refused, messages without an active generation refused, commit only with all '
+                'contributions, gone after commit/abort/expiry, re-prepare possible - and each account exists exactly when the model says a commit succeeded.'),
+    level_note='Where the statement leaves an outcome open (second execute on an active session, a repeated contribution) the model accepts either answer and only requires that the session stays as it was.',
+    parts=[part('TestC17', 900, 8000, qshards=2)],
+    rule=('a case is one event sequence; non-trivial iff it contains a refusal caused by lifecycle state and a later successful re-prepare of a name that had been refused; distinct = sha256 of the case JSON'),
+    essential=['lifecycle-refusals', 're-prepare-after-refusal', 'successful-commits', 'sessions-expired', 'self-position-0', 'self-position-1', 'self-position-2'] +
+              ['refusal:' + r for r in ['second-prepare', 'execute-without-session', 'contribute-without-session', 'commit-without-session', 'commit-before-all-contributions', 'abort-without-session']],
+    assumptions=['the clock is advanced through the verif hook VerifAgeGenerations in steps that never land near the timeout boundary'],
+)
+
 ENGINES = [
     dict(name='rapid-harness', path='/verif/harness', kind_free_text='Go test module (pgregory.net/rapid v1.3.0) compiled against /repo with -tags verif; driver /verif/check shards by seed, merges coverage, writes evidence',
          serves_properties=sorted(CHECKS)),
